@@ -2,7 +2,7 @@
     Property theorems only, about the per-window methods REGENERATED from the source (Gen/GenScalars.v;
     translation validated by correspondence K5).  [eql] = elementwise equality of rationals. *)
 From Coq Require Import QArith Qabs List Bool String.
-From IV Require Import QL Dist Ecdf QListFacts GenUtils GenScalars RatLS C16_compose C03_proofs C02_proofs C04_proofs C01_proofs C09_proofs RatLS_proofs IsimipStep4 C09_step4.
+From IV Require Import QL Dist Ecdf QListFacts GenUtils GenScalars RatLS C16_compose C03_proofs C02_proofs C04_proofs C01_proofs C09_proofs RatLS_proofs IsimipStep4 C09_step4 IsimipWindow IsimipWindow_reference.
 Import ListNotations.
 Open Scope Q_scope.
 
@@ -78,3 +78,10 @@ Theorem C09_cdft_ssr_never_reorders : forall thr x y ux uy : Q, 0 <= x -> x < y 
   cdft_randomize_zero x thr ux <= cdft_randomize_zero y thr uy.
 Proof. exact ssr_never_reorders. Qed.
 Print Assumptions C09_cdft_ssr_never_reorders.
+
+(** ISIMIP step 6, parametric value adjustment of an unbounded variable (Model/IsimipWindow.v step6_unbounded, K22): a
+    value-wise non-decreasing function of the cm_future value, for any distribution with monotone cdf and ppf *)
+Theorem C09_isimip_step6_unbounded_monotone : forall (P : Type) (D : dist P) thr ofu f, dist_monotone D -> thr <= 1 - thr ->
+  exists G, step6_unbounded D thr ofu f = map G f /\ monotone G.
+Proof. exact @step6_unbounded_monotone. Qed.
+Print Assumptions C09_isimip_step6_unbounded_monotone.
